@@ -32,8 +32,8 @@ REGISTRY = dict(
     note=("Trusted: Coq 8.16.1 kernel (vm_compute, no native_compute), translate/skeleton.py (AST -> phases, fail closed), harness/c02.py + scripted_envs.py, Python/numpy/gymnasium/multiprocessing/pickle, "
           "the operating system's pipes. Modelled, not verified: one FIFO pipe per direction and worker, atomic worker iterations. Deadlock freedom is proved for programs that run sequentially "
           "(every recv has its send); for send-all/receive-all programs this is proved for all n, for index-subset programs (get_attr/set_attr/env_method) it is evaluated per generated case. "
-          "The equality of the protocol model's replies with the DummyVecEnv loop of Model/VecEnv.v (C01) is a theorem for step() (C02_step_eq_dummy_step); for reset() and the attribute/method calls it holds by "
-          "definition of the worker step (sub_reset / attribute access) and is checked by evaluation on every generated case. "
+          "The replies equal the DummyVecEnv loops of Model/VecEnv.v (C01) by theorem for step() and reset() (C02_step_eq_dummy_step, C02_reset_eq_dummy_reset); attribute/method calls equal the "
+          "for-i-in-targets loop (dloop) by theorem. "
           "Quick tier: start method fork, n_envs 1-3; forkserver/spawn only in the thorough tier. Known finding F10 (reward dtype) reproduced from corpus/C02.jsonl. "
           "All C02 theorems are closed under the global context."),
     technique="machine-checked proof in Coq (simulation invariant over all schedules, induction over programs) + regenerated communication skeleton + differential lock-step correspondence with injected delays",
@@ -87,10 +87,12 @@ def gen_case(rng, idx, start_method="fork"):
             calls.append(["set_options", [rng.choice([None, rng.randint(1, 99)]) for _ in range(n)]])
         elif u < 0.84:
             calls.append(["get_attr", gen_indices(rng, n)])
-        elif u < 0.92:
+        elif u < 0.90:
             calls.append(["set_attr", rng.randint(1, 999), gen_indices(rng, n)])
-        else:
+        elif u < 0.95:
             calls.append(["env_method", rng.randint(1, 999), gen_indices(rng, n)])
+        else:
+            calls.append(["is_wrapped", gen_indices(rng, n)])
     n_steps = sum(1 for c in calls if c[0] == "step") + 2
     pattern = rng.choice(["random", "reversed", "straggler", "none"])
     sleeps = []
@@ -103,7 +105,8 @@ def gen_case(rng, idx, start_method="fork"):
             sleeps.append({str(k): 0.015 for k in range(n_steps)} if i == idx % n else {})
         else:
             sleeps.append({})
-    return {"obs_kind": obs_kind, "act_kind": act_kind, "n": n, "scripts": scripts, "calls": calls, "sleeps": sleeps,
+    wrapped = [rng.random() < 0.4 for _ in range(n)]
+    return {"obs_kind": obs_kind, "act_kind": act_kind, "n": n, "scripts": scripts, "calls": calls, "sleeps": sleeps, "wrapped": wrapped,
             "delay_pattern": pattern, "start_method": start_method, "schedule": [rng.randrange(64) for _ in range(400)], "id": idx}
 
 
@@ -117,13 +120,33 @@ def targets_of(indices, n):
 
 # ---------------------------------------------------------------- implementation: lock-step drive
 
+def wrapper_class():
+    """the gym wrapper class asked for by env_is_wrapped (pass-through with this horizon)"""
+    from gymnasium.wrappers import TimeLimit
+
+    return TimeLimit
+
+
+def make_fn(script, wrapped, **kw):
+    """constructor of one sub-environment, optionally wrapped in a pass-through gym wrapper"""
+    def _f():
+        from gymnasium.wrappers import TimeLimit
+
+        from harness import scripted_envs as se
+
+        env = se.ScriptedEnv(script, **kw)
+        return TimeLimit(env, max_episode_steps=10**9) if wrapped else env
+
+    return _f
+
+
 def make_pair(case):
-    from harness import scripted_envs as se
     from stable_baselines3.common.vec_env import DummyVecEnv, SubprocVecEnv
 
     kw = dict(obs_kind=case["obs_kind"], act_kind=case["act_kind"])
-    dummy = DummyVecEnv([se.make_env_fn(sc, env_id=i, **kw) for i, sc in enumerate(case["scripts"])])
-    sub = SubprocVecEnv([se.make_env_fn(sc, env_id=i, sleep_plan=case["sleeps"][i], **kw) for i, sc in enumerate(case["scripts"])],
+    wr = case.get("wrapped") or [False] * case["n"]
+    dummy = DummyVecEnv([make_fn(sc, wr[i], env_id=i, **kw) for i, sc in enumerate(case["scripts"])])
+    sub = SubprocVecEnv([make_fn(sc, wr[i], env_id=i, sleep_plan=case["sleeps"][i], **kw) for i, sc in enumerate(case["scripts"])],
                         start_method=case.get("start_method", "fork"))
     return dummy, sub
 
@@ -150,6 +173,8 @@ def do_call(venv, case, call):
         return {"ret": venv.set_attr("attr_value", call[1], indices=call[2])}
     if call[0] == "env_method":
         return {"ret": venv.env_method("echo", call[1], indices=call[2])}
+    if call[0] == "is_wrapped":
+        return {"ret": venv.env_is_wrapped(wrapper_class(), indices=call[1])}
     raise ValueError(call)
 
 
@@ -280,6 +305,8 @@ def decode_call(case, venv, call, res):
             return [[i, ["ResNone"]] for i in targets_of(call[2], n)]
         if call[0] == "env_method":
             return [[i, ["ResMethod", v[0], v[1][0]]] for i, v in zip(targets_of(call[2], n), res["ret"])]
+        if call[0] == "is_wrapped":
+            return [[i, ["ResBool", bool(v)]] for i, v in zip(targets_of(call[1], n), res["ret"])]
     except Exception as e:  # noqa: BLE001
         return [["undecodable", f"{type(e).__name__}: {e}"]]
     return []
@@ -308,16 +335,20 @@ def coq_calls(case, calls=None):
             out.append(f"KaSetAttr {coq_Z(c[1])} {coq_list(targets_of(c[2], n), coq_nat)}")
         elif c[0] == "env_method":
             out.append(f"KaEnvMethod {coq_Z(c[1])} {coq_list(targets_of(c[2], n), coq_nat)}")
+        elif c[0] == "is_wrapped":
+            out.append(f"KaIsWrapped {coq_list(targets_of(c[1], n), coq_nat)}")
     return "[" + "; ".join(out) + "]"
 
 
 def model_exprs(case):
     from harness import scripted_envs as se
-    from harness.common import coq_list, coq_nat
+    from harness.common import coq_bool, coq_list, coq_nat
 
     scs = "[" + "; ".join(se.coq_script(s) for s in case["scripts"]) + "]"
     cs = coq_calls(case)
-    return [f"run_subproc_scripted {scs} {cs} {coq_list(case['schedule'], coq_nat)}", f"run_seq_scripted {scs} {cs}"]
+    flags = coq_list(case.get("wrapped") or [], coq_bool)
+    # the protocol model under the random schedule, and the DummyVecEnv-loop semantics of the same history
+    return [f"run_subproc_scripted_w {scs} {flags} {cs} {coq_list(case['schedule'], coq_nat)}", f"Some (run_dummy_scripted {scs} {flags} {cs})"]
 
 
 def _opt(x):
@@ -338,6 +369,8 @@ def model_log(val):
             out.append([i, ["ResAttr", r[1]]])
         elif r[0] == "ResMethod":
             out.append([i, ["ResMethod", r[1], r[2]]])
+        elif r[0] == "ResBool":
+            out.append([i, ["ResBool", bool(r[1])]])
         else:
             out.append([i, list(r)])
     return out
@@ -423,7 +456,7 @@ def main():
         hist["total_calls"] += len(c["calls"])
         for call in c["calls"]:
             hist["calls"][call[0]] = hist["calls"].get(call[0], 0) + 1
-        if c["n"] >= 2 and c.get("delay_pattern") != "none" and any(call[0] in ("get_attr", "set_attr", "env_method") for call in c["calls"]):
+        if c["n"] >= 2 and c.get("delay_pattern") != "none" and any(call[0] in ("get_attr", "set_attr", "env_method", "is_wrapped") for call in c["calls"]):
             distinct.add(json.dumps([c["obs_kind"], c["scripts"], c["calls"], c["sleeps"]], sort_keys=True))
         known = [p for p in probs if p[0] == "reward-dtype-float32-vs-float64"]
         other = [p for p in probs if p[0] != "reward-dtype-float32-vs-float64"]
@@ -451,7 +484,7 @@ def main():
     chk.coverage["evaluations"] = len(cases)
     chk.coverage["traces_validated_against_impl"] = hist["model_compared"]
     chk.coverage["distinct_nontrivial"] = len(distinct)
-    chk.coverage["rule"] = ("lock-step histories (12-25 calls: reset/step/seed/set_options/get_attr/set_attr/env_method with indices None|int|list incl. unsorted and repeated) on a real "
+    chk.coverage["rule"] = ("lock-step histories (12-25 calls: reset/step/seed/set_options/get_attr/set_attr/env_method/env_is_wrapped with indices None|int|list incl. unsorted and repeated; sub-envs randomly wrapped in a pass-through gym wrapper) on a real "
                             "SubprocVecEnv and DummyVecEnv (n_envs 1-3, 10 observation kinds) with injected per-(env, step) delays 0-25 ms in patterns random/reversed/straggler/none; "
                             "every return value compared; protocol model evaluated in Coq under a random schedule on the same calls; non-trivial = n_envs >= 2 AND delays injected AND an "
                             "attribute/method call with indices; distinct = distinct (kind, scripts, calls, delays)")
